@@ -5,7 +5,8 @@ model (`parser.parse` driver op) on the same call and canonicalising both answer
 Canonical answer (both sides):
     err <Kind>
     ok Y M D h m s us | <zone> | <tokens>
-  zone   : naive | warn <cps> | utc | fixed <name|N> <seconds> | local <fold> | obj <k> <fold> | str <cps> <fold>
+  zone   : naive | warn <cps> | utc | fixed <name|N> <seconds> | obj <k> <fold> | str <cps> <fold>
+           | local <fold> off<utcoffset s> dst<dst s> <tzname> same<tzinfo == a tzlocal() built now>
   tokens : -  |  [cps,cps,...]
 Text travels as code points (`49.50`, `-` empty) with Python's own character classes.
 """
@@ -270,6 +271,25 @@ def text_arg(call):
     return call.text
 
 
+def _secs(td):
+    return "N" if td is None else str(td.days * 86400 + td.seconds)
+
+
+def local_obs(aware):
+    """what a process-zone result really says at its wall time: utcoffset, dst, tzname (the tzlocal OBJECT is the
+    implementation's; a stale one — built under an earlier process zone — shows here)"""
+    try:
+        return "off%s dst%s %s" % (_secs(aware.utcoffset()), _secs(aware.dst()), optname(aware.tzname()))
+    except (OverflowError, OSError, ValueError) as e:
+        return "offerr " + type(e).__name__
+
+
+def local_desc(naive, fold):
+    """the expected descriptor of a process-zone result: a tzlocal built NOW, under the current process zone"""
+    from dateutil import tz
+    return "local %d %s same1" % (fold, local_obs(naive.replace(tzinfo=tz.tzlocal(), fold=fold)))
+
+
 def zone_of(dt, warned):
     from dateutil import tz
     ti = dt.tzinfo
@@ -283,7 +303,7 @@ def zone_of(dt, warned):
     if ti is tz.UTC:
         return "utc" if dt.fold == 0 else "utc fold%d" % dt.fold
     if isinstance(ti, tz.tzlocal):
-        return "local %d" % dt.fold
+        return "local %d %s same%d" % (dt.fold, local_obs(dt), int(ti == tz.tzlocal()))
     if isinstance(ti, tz.tzoffset):
         return "fixed %s %d" % (optname(ti._name), int(ti._offset.total_seconds()))
     if isinstance(ti, tz.tzstr):
@@ -363,7 +383,7 @@ def model_answers(ctx, calls):
                 out[i] = "err OverflowError"
                 continue
             second.append("parser.localfinal %s %s %s" % (optname(n0), optname(n1), name))
-            where.append((i, head, "local", None, toks))
+            where.append((i, head, "local", naive, toks))
         else:
             data, name = rest.split(" ")
             if data == "n":
@@ -395,6 +415,8 @@ def model_answers(ctx, calls):
         for (i, head, kind, lab, toks), r in zip(where, res):
             if kind == "local":
                 z = r[3:]                       # "utc" | "local f"
+                if z.startswith("local "):
+                    z = local_desc(lab, int(z.split()[1]))
             else:
                 z = "%s %s" % (lab, r[3:])
             out[i] = "%s | %s | %s" % (head, z, toks)
@@ -410,6 +432,198 @@ def set_tz(name):
         os.environ["TZ"] = name
     time.tzset()
     return prev
+
+
+# ---------------------------------------------------------------- state shared between calls (class / module level)
+def ast_shared_state_sites(repo):
+    """everything in _parser.py through which one call could leave something behind for the next: every class-level and
+    module-level assignment (any value, also an immutable one that a method rebinds), every `global` / `nonlocal`, every store
+    to an attribute of `cls` / `self.__class__` / `type(self)` / a module-level name, every `setattr`, every store to `self.x`
+    in a method of parser / parserinfo outside __init__ (DEFAULTPARSER and its parserinfo are one shared instance), every
+    caching decorator, every mutable default argument — in ALL functions of the file, modelled or not"""
+    import ast, collections
+    path = os.path.join(repo, "src", "dateutil", "parser", "_parser.py")
+    tree = ast.parse(open(path).read())
+    sites = collections.Counter()
+    modnames = set()
+    for node in tree.body:
+        if isinstance(node, (ast.ClassDef, ast.FunctionDef)):
+            modnames.add(node.name)
+        elif isinstance(node, (ast.Assign, ast.AnnAssign, ast.AugAssign)):
+            tg = node.targets if isinstance(node, ast.Assign) else [node.target]
+            for t in tg:
+                for e in ast.walk(t):
+                    if isinstance(e, ast.Name):
+                        modnames.add(e.id)
+            sites["module:assign:%s" % ast.unparse(node)[:100]] += 1
+
+    def base_name(e):
+        while isinstance(e, (ast.Attribute, ast.Subscript)):
+            e = e.value
+        return e
+
+    def scan_func(cname, fn):
+        q = "%s.%s" % (cname or "", fn.name)
+        for d in fn.decorator_list:
+            src = ast.unparse(d)
+            if any(w in src.lower() for w in ("cache", "lru", "memo")):
+                sites["%s:caching-decorator:%s" % (q, src[:80])] += 1
+            if src in ("classmethod", "staticmethod"):
+                sites["%s:%s" % (q, src)] += 1
+        for a in list(fn.args.defaults) + [x for x in fn.args.kw_defaults if x is not None]:
+            if isinstance(a, (ast.List, ast.Dict, ast.Set, ast.Call, ast.ListComp, ast.DictComp, ast.SetComp)):
+                sites["%s:mutable-default:%s" % (q, ast.unparse(a)[:80])] += 1
+        for n in ast.walk(fn):
+            if isinstance(n, (ast.Global, ast.Nonlocal)):
+                sites["%s:%s:%s" % (q, type(n).__name__.lower(), ",".join(n.names))] += 1
+            tgts = []
+            if isinstance(n, ast.Assign):
+                tgts = n.targets
+            elif isinstance(n, (ast.AugAssign, ast.AnnAssign)):
+                tgts = [n.target]
+            elif isinstance(n, ast.Delete):
+                tgts = n.targets
+            for t in tgts:
+                for e in (t.elts if isinstance(t, (ast.Tuple, ast.List)) else [t]):
+                    if not isinstance(e, (ast.Attribute, ast.Subscript)):
+                        continue
+                    b = base_name(e)
+                    src = ast.unparse(e)
+                    if isinstance(b, ast.Name) and b.id == "cls":
+                        sites["%s:class-store:%s" % (q, src[:100])] += 1
+                    elif isinstance(b, ast.Call) and ast.unparse(b.func) == "type":
+                        sites["%s:class-store:%s" % (q, src[:100])] += 1
+                    elif "__class__" in src or "__dict__" in src:
+                        sites["%s:class-store:%s" % (q, src[:100])] += 1
+                    elif isinstance(b, ast.Name) and b.id in modnames and b.id not in ("self",):
+                        # a local of the same name shadows the module-level one only if assigned as a plain name in the function
+                        local = any(isinstance(m, ast.Name) and m.id == b.id and isinstance(m.ctx, ast.Store) for m in ast.walk(fn))
+                        if not local:
+                            sites["%s:module-store:%s" % (q, src[:100])] += 1
+                    elif (isinstance(b, ast.Name) and b.id == "self" and cname in ("parser", "parserinfo")
+                          and fn.name != "__init__"):
+                        sites["%s:shared-instance-store:%s" % (q, src[:100])] += 1
+            if isinstance(n, ast.Call) and ast.unparse(n.func) in ("setattr", "object.__setattr__", "globals", "vars"):
+                sites["%s:%s:%s" % (q, ast.unparse(n.func), ast.unparse(n)[:100])] += 1
+
+    for node in tree.body:
+        if isinstance(node, ast.ClassDef):
+            for n in node.body:
+                if isinstance(n, (ast.Assign, ast.AnnAssign, ast.AugAssign)):
+                    sites["%s:class-attr:%s" % (node.name, ast.unparse(n)[:100])] += 1
+                elif isinstance(n, ast.FunctionDef):
+                    scan_func(node.name, n)
+            for d in node.decorator_list:
+                sites["%s:class-decorator:%s" % (node.name, ast.unparse(d)[:80])] += 1
+        elif isinstance(node, ast.FunctionDef):
+            scan_func(None, node)
+    return sites
+
+
+# ---------------------------------------------------------------- process-zone switches
+def fresh_start(steps):
+    """start a fresh Python process that evaluates `steps` = [(TZ, case dict)]; returns the Popen (collect with fresh_collect)"""
+    import subprocess, json
+    env = dict(os.environ)
+    env["TZ"] = steps[0][0] if steps and steps[0][0] is not None else "UTC"
+    p = subprocess.Popen([sys.executable, os.path.join(os.path.dirname(os.path.abspath(__file__)), "_parser_ref.py")],
+                         stdin=subprocess.PIPE, stdout=subprocess.PIPE, stderr=subprocess.PIPE, env=env)
+    p._payload = json.dumps({"steps": [{"TZ": tz, "case": c} for tz, c in steps]}).encode()
+    return p
+
+
+def fresh_collect(p):
+    import json
+    out, err = p.communicate(p._payload, timeout=600)
+    if p.returncode != 0:
+        raise RuntimeError("fresh-process reference failed: " + err.decode("utf-8", "replace")[-400:])
+    return json.loads(out.decode())["answers"]
+
+
+def fresh_answers(steps):
+    return fresh_collect(fresh_start(steps))
+
+
+def zone_switch_run(ctx, rng, groups, n_texts, what):
+    """The process-zone switch family.  For every group of TZ settings that SHARE entries of time.tzname but differ in offset /
+    DST rules / hemisphere: the same calls are made under every zone of the group, switching with time.tzset() between calls
+    (a -> b -> a ...), and every answer is compared with (1) the model's answer for that zone and (2) the implementation's
+    answer in a fresh process whose only zone that was.  A difference is state that one call (or one zone) left behind."""
+    from props import _parser_gen as G
+    shown = 0
+    for gi, grp in enumerate(groups):
+        calls = G.zone_switch_calls(rng, grp, n_texts)
+        cases = [c.describe() for c in calls]
+        procs = {z: fresh_start([(z, c) for c in cases]) for z in grp}
+        model = {}
+        for z in grp:
+            set_tz(z)
+            model[z] = model_answers(ctx, calls)
+        ref = {z: fresh_collect(procs[z]) for z in grp}
+        # the interleaved sequence
+        steps = []
+        for j in range(len(calls)):
+            zs = rng.sample(grp, min(len(grp), rng.choice([2, 2, 3])))
+            for z in zs + [zs[0]]:
+                steps.append((z, j))
+        # blocks stay together (a -> b -> a on one text), block order is random; then a fully shuffled tail
+        tail = [(rng.choice(grp), rng.randrange(len(calls))) for _ in range(len(calls))]
+        history = []
+        for z, j in steps + tail:
+            set_tz(z)
+            a = run_impl(calls[j])[0]
+            history.append((z, j))
+            ctx.evaluations += 1
+            ctx.count("zone_switch_calls")
+            ctx.case(("zone-switch", gi, z, calls[j].key()), nontrivial=" | local " in a)
+            if " | local " in a:
+                ctx.count("zone_switch_local_results")
+            if a != model[z][j] or a != ref[z][j]:
+                case = calls[j].describe()
+                case["TZ"] = z
+                # shortest recorded zone sequence that shows it in a fresh process: (other zone, same text) then this call
+                seq = None
+                if shown < 4:
+                    for z0 in grp:
+                        if z0 != z:
+                            try:
+                                r = fresh_answers([(z0, cases[j]), (z, cases[j])])
+                            except Exception:
+                                continue
+                            if r[1] != ref[z][j]:
+                                seq = [[z0, cases[j]["text"]]]
+                                break
+                if seq is None:
+                    seq = [[zz, cases[jj]["text"]] for zz, jj in history[-60:-1]]
+                case["TZ_sequence"] = seq
+                shown += 1
+                ctx.violation(what + ": the answer under a process zone depends on the zones / calls before it (time.tzset between "
+                              "calls; zones sharing an abbreviation)", case,
+                              {"impl": a, "model_for_this_TZ": model[z][j], "fresh_process_for_this_TZ": ref[z][j],
+                               "time.tzname": list(time.tzname)})
+                if shown >= 12:
+                    return
+
+
+def zone_switch_replay(ctx, c):
+    """replay of a zone_switch_run violation in a fresh process: the recorded (TZ, text) sequence, then the call"""
+    call = call_from_case(c)
+    case = call.describe()
+    steps = []
+    for z, t in c.get("TZ_sequence") or []:
+        d = dict(case); d["text"] = t
+        steps.append((z, d))
+    steps.append((c.get("TZ"), case))
+    got = fresh_answers(steps)[-1]
+    ref = fresh_answers([(c.get("TZ"), case)])[0]
+    prev = set_tz(c.get("TZ"))
+    try:
+        m = model_answers(ctx, [call])[0]
+    finally:
+        set_tz(prev)
+    print("zone sequence %s then TZ=%s parse(%s): after-sequence=%s fresh-process=%s model=%s"
+          % ([z for z, _ in steps[:-1]], c.get("TZ"), ascii(call.text), got, ref, m))
+    return got == ref == m
 
 
 # ---------------------------------------------------------------- assumption audit (per run)
